@@ -417,7 +417,8 @@ struct Shared<'a> {
     ct: &'a Packed<u32>,
 }
 
-const STRESS_OPS: &[&str] = &["glwe_encrypt", "glwe_decrypt", "glwe_keyswitch", "external_product", "bdd_op", "get_bit_glwe", "prepare_bit", "bdd_op_mt", "cmux", "splice"];
+const STRESS_OPS: &[&str] =
+    &["glwe_encrypt", "glwe_decrypt", "glwe_keyswitch", "external_product", "bdd_op", "get_bit_glwe", "prepare_bit", "bdd_op_mt", "cmux", "splice", "cbt_constant", "cbt_exponent", "cbt_constant"];
 
 fn run_sequence(sh: &Shared, seq_seed: u64, len: usize) -> Vec<(String, u64)> {
     let ctx = sh.ctx;
@@ -474,6 +475,30 @@ fn run_sequence(sh: &Shared, seq_seed: u64, len: usize) -> Vec<(String, u64)> {
                 let mut p: Prepared<u32> = ctx.alloc_prepared();
                 FheUintPrepare::<CGGI, BE>::fhe_uint_prepare_custom(m, &mut p, sh.ct, bit, 1, &ctx.key, scratch.borrow());
                 fnv_bytes(&prepared_bytes(&p))
+            }
+            "cbt_constant" | "cbt_exponent" => {
+                // circuit bootstrapping straight through the public key methods, with a result layout / encoding that differs from
+                // thread to thread and from step to step (threads sharing the key then run *different* parameter sets at once)
+                let (cbt, _, _) = ctx.key.get_cbt_key();
+                let dnum = rng.usize_in(1, 3);
+                let b = ctx.ggsw_infos.base2k;
+                let lay = GGSWLayout { n: ctx.ggsw_infos.n, base2k: b, k: TorusPrecision(3 * b.0), rank: ctx.ggsw_infos.rank, dnum: Dnum(dnum as u32), dsize: Dsize(1) };
+                let mut res: GGSW<Vec<u8>> = GGSW::alloc_from_infos(&lay);
+                let lwe_lay = LWELayout { n: ctx.sk_lwe.n(), k: ctx.glwe_infos.k, base2k: ctx.glwe_infos.base2k };
+                let mut lwe: LWE<Vec<u8>> = LWE::alloc_from_infos(&lwe_lay);
+                lwe.data_mut().fill_uniform(lwe_lay.base2k.0 as usize, &mut Source::new(seed32(rng.next_u64(), 7)));
+                if op == "cbt_constant" {
+                    cbt.execute_to_constant(m, &mut res, &lwe, 1, 1, scratch.borrow());
+                } else {
+                    cbt.execute_to_exponent(m, 1, &mut res, &lwe, 1, 1, scratch.borrow());
+                }
+                let mut bytes = Vec::new();
+                for r in 0..dnum {
+                    for c in 0..(ctx.ggsw_infos.rank.0 as usize + 1) {
+                        bytes.extend_from_slice(&glwe_bytes(&res.at(r, c)));
+                    }
+                }
+                fnv_bytes(&bytes)
             }
             "cmux" => {
                 let bit = rng.usize_in(0, 31);
